@@ -28,6 +28,10 @@ def plan(rng, thorough):
     add("match", cls="equal", dsse=True, diffs=[])
     add("match", cls="diff", dsse=True, diffs=["differ"])
     add("match", cls="equal", dsse=True, diffs=[], signed=True)
+    add("match", cls="file_collision", dsse=False, diffs=[])
+    add("match", cls="file_collision", dsse=True, diffs=[])
+    add("verify", cls="insp_empty_run", keyform="vk", dsse=False)
+    add("verify", cls="insp_empty_run", keyform="lk", dsse=True)
     add("match", cls="diff", dsse=False, diffs=["other_algorithm"])
     add("match", cls="diff", dsse=True, diffs=["other_algorithm"])
 
